@@ -323,6 +323,8 @@ class _Canon(ast.NodeTransformer):
         return new
 
     def visit_Module(self, n: ast.Module):
+        self._stored_attrs = {x.attr for f in ast.walk(n) if isinstance(f, ast.FunctionDef) and f.name not in ("__init__", "__post_init__")
+                              for x in ast.walk(f) if isinstance(x, ast.Attribute) and isinstance(x.ctx, (ast.Store, ast.Del))}
         self._props = {f.name for f in ast.walk(n) if isinstance(f, ast.FunctionDef)
                        and any((isinstance(d, ast.Name) and d.id in ("property", "cached_property")) or (isinstance(d, ast.Attribute) and d.attr in ("setter", "cached_property"))
                                for d in f.decorator_list)}
@@ -343,12 +345,71 @@ class _Canon(ast.NodeTransformer):
             n = self.generic_visit(n)
             self._field_copies(n, counts)
             self._default_fills(n)
+            self._flag_locals(n)
             self._stored_copies(n)
             self._entry_aliases(n, counts)
             self._item_copies(n, counts)
             return n
         finally:
             stack.pop()
+
+    def _flag_locals(self, fn: ast.FunctionDef) -> None:
+        """`emit = not self.flag_x` (assigned once, from attributes of `self` / parameters that the function never stores to, combined
+        with not / and / or / comparisons with constants) read later is that expression: a name for a condition, nothing more."""
+        stored_attrs = {x.attr for x in ast.walk(fn) if isinstance(x, ast.Attribute) and isinstance(x.ctx, (ast.Store, ast.Del))} | self.__dict__.get("_stored_attrs", set())
+        stores = {}
+        for x in ast.walk(fn):
+            if isinstance(x, ast.Name) and isinstance(x.ctx, (ast.Store, ast.Del)):
+                stores[x.id] = stores.get(x.id, 0) + 1
+        params = {a.arg for a in ast.walk(fn.args) if isinstance(a, ast.arg)}
+
+        def pure(e):
+            if isinstance(e, ast.UnaryOp) and isinstance(e.op, ast.Not):
+                return pure(e.operand)
+            if isinstance(e, ast.BoolOp):
+                return all(pure(v) for v in e.values)
+            if isinstance(e, ast.Compare) and len(e.ops) == 1 and isinstance(e.comparators[0], ast.Constant):
+                return pure(e.left)
+            if isinstance(e, ast.Attribute) and isinstance(e.value, ast.Name) and e.value.id == "self":
+                return e.attr not in stored_attrs and stores.get("self", 0) == 0
+            if isinstance(e, ast.Name):
+                return e.id in params and stores.get(e.id, 0) == 0
+            return False
+        blocks = [fn.body]
+        for x in ast.walk(fn):
+            if x is not fn and not isinstance(x, (ast.FunctionDef, ast.Lambda, ast.ClassDef)):
+                for fld in ("body", "orelse", "finalbody"):
+                    b = getattr(x, fld, None)
+                    if isinstance(b, list) and b and isinstance(b[0], ast.stmt):
+                        blocks.append(b)
+        for body in blocks:
+            for i, st in enumerate(list(body)):
+                if isinstance(st, ast.Assign) and len(st.targets) == 1 and isinstance(st.targets[0], ast.Name) and stores.get(st.targets[0].id) == 1 \
+                        and isinstance(st.value, (ast.UnaryOp, ast.BoolOp, ast.Compare)) and pure(st.value) and st.targets[0].id not in params:
+                    name, val = st.targets[0].id, st.value
+                    if any(isinstance(x, (ast.Global, ast.Nonlocal)) and name in x.names for x in ast.walk(fn)):
+                        continue
+                    if any(isinstance(x, ast.Name) and x.id == name and isinstance(x.ctx, ast.Load) and getattr(x, "lineno", 0) < getattr(st, "lineno", 0) for x in ast.walk(fn)):
+                        continue
+                    inside = {id(x) for other in body for x in ast.walk(other)}
+                    if any(isinstance(x, ast.Name) and x.id == name and isinstance(x.ctx, ast.Load) and id(x) not in inside for x in ast.walk(fn)):
+                        continue                             # read outside the block it is defined in
+
+                    class _S(ast.NodeTransformer):
+                        def visit_Name(self2, x):
+                            if x.id == name and isinstance(x.ctx, ast.Load):
+                                return ast.copy_location(copy.deepcopy(val), x)
+                            return x
+                    for other in body:
+                        if other is not st:
+                            _S().visit(other)
+                    body.remove(st)
+        # the substituted conditions are brought back into normal form (`not (not self.f)` -> `self.f`)
+        for x in ast.walk(fn):
+            for fld in ("test",):
+                t = getattr(x, fld, None)
+                if isinstance(t, ast.expr) and isinstance(x, (ast.If, ast.While, ast.IfExp)):
+                    setattr(x, fld, self.visit(t))
 
     def _stored_copies(self, fn: ast.FunctionDef) -> None:
         """`t = e` / `obj.attr = t` / ... t ...  is  `obj.attr = e` / ... obj.attr ...: a local that only names the value on its way into
